@@ -248,7 +248,7 @@ void* gp_mem_realloc(
     }
     void* new_block = gp_mem_alloc(allocator, new_size);
     if (old_block != NULL)
-        memcpy(new_block, old_block, old_size);
+        memcpy(new_block, old_block, gp_min(old_size, new_size));
     gp_mem_dealloc(allocator, old_block);
     return new_block;
 }
